@@ -20,19 +20,24 @@ def claim(pid, text, note, technique, ref):
 
 BOUND = ("Kani obligations are complete for every state and input at the instantiated capacities "
          "(quick N<=2, thorough N<=3/4) and element shapes, not for larger N; ")
+VASSUME = ("Verus side: bodies extracted verbatim from /repo on every run (closure clauses inserted, closure pattern parameters bound by let, see DESIGN 0.2b); "
+           "assumed there: the contracts of item_read, insert_ii, insert_ii_for_full (bodies out of Verus' reach; discharged by Kani at N<=3/4), the axiom for Iterator::enumerate, "
+           "lawfulness of the kept `impl Iterator for Iter`, and specifications of get_unchecked(_mut), MaybeUninit::write/assume_init_drop/assume_init_read, mem::drop/replace, AsRef::as_ref; "
+           "lookups are stated under the hypothesis of a deterministic Borrow and a specified ==. ")
 TB = ("Trusted: Kani/CBMC/CaDiCaL, Verus/Z3, rustc, the mechanical injection of the harness module "
       "(cfg(kani)) into a scratch copy of /repo; kani::assume only in state generators and stated preconditions.")
 
 claim("C01",
       "Contract of every public Map operation (result = ideal-dictionary result; view afterwards = model transition for a symbolic probe key; len; key uniqueness) "
       "proved by Kani on the real compiled crate from an arbitrary well-formed pre-state (any len, any slot order, arbitrary bytes in dead slots), hence for every history by induction; "
-      "swap-remove/insert/clear/retain cores additionally proved by Verus for all N and all K,V on the verbatim function bodies.",
-      BOUND + TB, "function contracts discharged by Kani (CBMC) on the real crate + Verus on extracted bodies", "DESIGN 6/C01")
+      "additionally proved by Verus for ALL N and all K,V on the verbatim function bodies: get, get_key_value, contains_key, remove, remove_entry (first matching slot, swap-remove effect on every slot), "
+      "insert/insert_key_value/checked_insert/insert_unchecked (against the insertion-core contract insert_post, which insert_i is proved to satisfy), clear, the swap-remove core, Map::iter.",
+      BOUND + VASSUME + TB, "function contracts discharged by Kani (CBMC) on the real crate + Verus on extracted bodies", "DESIGN 6/C01")
 claim("C02",
       "Ownership ledger contracts: every key/value is a token whose Drop/Eq/Clone assert the ledger discipline; for every operation, consuming iterator and drain "
       "(dropped or forgotten after a symbolic number of steps) Kani proves no token is destroyed twice, none is used dead/uninitialised, and the final sweep finds every token destroyed exactly once. "
-      "Verus proves for all N that every slot accessor call in the accessor-style functions meets its live/empty precondition.",
-      BOUND + "A bounded native stand-in (native/c04_panic_injection.rs, labelled bounded, not counted as proved) adds the executions the verifiers cannot model. " + TB,
+      "Verus proves for all N that every slot access - through the accessors (five of the six are themselves verified against vstd's MaybeUninit model) and the direct assume_init_ref calls inside the lookup closures - meets its live/empty/in-bounds precondition.",
+      BOUND + VASSUME + "A bounded native stand-in (native/c04_panic_injection.rs, labelled bounded, not counted as proved) adds the executions the verifiers cannot model. " + TB,
       "ghost ownership ledger as contracts, discharged by Kani; linear slot-state contracts discharged by Verus", "DESIGN 6/C02")
 claim("C04",
       "Unwind-safety obligations at every user callback (Tok::eq/clone/drop, predicates, closures, source iterators) of every operation from every state: "
@@ -54,26 +59,29 @@ claim("C03",
 claim("C05",
       "Well-formedness (len<=N, keys pairwise different) is a postcondition of every mutating contract (C01, C07, C09, C11) from every well-formed pre-state and the observational consequences "
       "(iteration count == len, yielded keys pairwise unequal, every yielded key looks up its value, is_empty/len/capacity) are proved from an arbitrary well-formed state; "
-      "Verus proves for all N, K, V: slot-liveness invariant preserved by clear/retain/swap-remove/insert_i/IntoIter::next, key-distinctness preserved by swap-remove (for any relation) and by insert_i, is_empty/len/capacity.",
-      BOUND + TB, KH + "; invariants and lemmas discharged by Verus on the verbatim core", "DESIGN 6/C05")
-claim("C07", "Contract of every Set operation (insert, replace, contains, get, remove, take, retain, clear, drain, extend by value and by reference) against the ideal finite set, with a symbolic probe element, borrowed-form lookups and stored-object identity.",
-      BOUND + TB, KH, "DESIGN 6/C07")
+      "Verus proves for all N, K, V: slot-liveness invariant preserved by clear/retain/swap-remove/insert_i/IntoIter::next, key-distinctness preserved by swap-remove (for any relation) and by insert_i, is_empty/len/capacity, and the same for the public wrappers (insert*, remove*, entry API, Set::insert/replace/take/remove).",
+      BOUND + VASSUME + TB, KH + "; invariants and lemmas discharged by Verus on the verbatim core", "DESIGN 6/C05")
+claim("C07", "Contract of every Set operation (insert, replace, contains, get, remove, take, retain, clear, drain, extend by value and by reference) against the ideal finite set, with a symbolic probe element, borrowed-form lookups and stored-object identity. "
+      "Verus proves Set::insert/replace/get/take/remove/contains/clear/len/is_empty/capacity for all N against the Map contracts.",
+      BOUND + VASSUME + TB, KH + "; Set projections discharged by Verus against the Map contracts", "DESIGN 6/C07")
 claim("C08", "For all pairs of well-formed sets at the instantiated capacity pairs and every fill level: union/intersection/difference/symmetric_difference traversals yield, for a symbolic probe, each element of the mathematical result exactly once and nothing else; "
       "size_hint brackets the remaining count before every step; None stays None; fold equals next; intersection/difference items point into the left operand; predicates equal the mathematical truth value; '-' yields the difference; difference_ref likewise; operands unchanged.",
       "Bounded in capacity: quick pairs up to (2,1), thorough up to (3,2)/(2,3); " + TB, KH + " with unrolled traversals", "DESIGN 6/C08")
 claim("C09", "iter, iter_mut, keys, values, values_mut, &map/&mut map into_iter, Set::iter: the j-th item is the j-th live slot, len()/size_hint() exact before every step, count() agrees, None after the end, clones continue identically, "
-      "a second traversal sees the same order (state unchanged), writes through iter_mut/values_mut are what lookups return.", BOUND + TB, KH, "DESIGN 6/C09")
+      "a second traversal sees the same order (state unchanged), writes through iter_mut/values_mut are what lookups return. Verus proves for all N: Map::iter hands out exactly the slots below len in order, and one step of Iter::next yields the first of them as (&key, &value) and consumes nothing else.", BOUND + VASSUME + TB, KH + "; Verus for Map::iter and Iter::next", "DESIGN 6/C09")
 claim("C10", "into_iter/into_keys/into_values/drain and Set equivalents yield exactly the stored entries, each once (matched against unseen slots), with exact len/size_hint before every step and None forever after; "
       "after drain (dropped after any number of steps, or forgotten) the map is empty and reusable; token ledger confirms single destruction; Verus proves IntoIter::next/size_hint/len/count for all N.",
       BOUND + TB, KH + "; Verus for IntoIter", "DESIGN 6/C10")
 claim("C11", "entry(k) is Occupied iff present; or_insert/or_insert_with/or_insert_with_key/or_default insert only when vacant, run the closure exactly once and only then, return a reference whose address is the value stored for k; and_modify only when occupied; "
-      "Occupied::{key,get,get_mut,insert,into_mut,remove,remove_entry} and Vacant::{key,into_key,insert} have the results and whole-view effects of the direct operations.", BOUND + TB, KH, "DESIGN 6/C11")
+      "Occupied::{key,get,get_mut,insert,into_mut,remove,remove_entry} and Vacant::{key,into_key,insert} have the results and whole-view effects of the direct operations. "
+      "Verus proves for all N: entry(k) (Occupied at the first slot whose key equals k, else Vacant carrying k; table untouched), VacantEntry::insert = insert + a reference to the slot used, or_insert/or_insert_with/or_insert_with_key, and the OccupiedEntry/VacantEntry accessors.", BOUND + VASSUME + TB, KH + "; entry API discharged by Verus", "DESIGN 6/C11")
 claim("C12", "With keys equal on id but distinguishable by tag (shape S_id): insert, checked_insert (both branches incl. full map), Set::insert and every entry path keep the stored key and drop the supplied one; insert_key_value and Set::replace store the supplied key and return the old one; "
-      "get_key_value, Set::get, take, remove_entry and all iterators expose the stored tag. Verus proves both update_key branches of insert_i for all N.", BOUND + TB, KH + " on shape S_id; Verus for insert_i", "DESIGN 6/C12")
+      "get_key_value, Set::get, take, remove_entry and all iterators expose the stored tag. Verus proves for all N both update_key branches of insert_i and that insert/checked_insert/Set::insert pass update_key=false while insert_key_value/Set::replace pass true, and that get_key_value/Set::get/take/remove_entry return the stored object.", BOUND + VASSUME + TB, KH + " on shape S_id; Verus for insert_i and the wrappers", "DESIGN 6/C12")
 claim("C13", "For pairwise different keys (J up to 3 quick / 4 thorough, any mix of present/absent, J may exceed len and N): each position equals get_mut in value and address, references pairwise distinct, writes land exactly on the requested values; "
       "two equal present keys: the call never returns and only the 'Overlapping keys' assertion fails, in both build profiles.", "Bounded: N<=3, J<=4; core's large-slice sort path is cut by a stub that asserts it is unreachable. " + TB, KH, "DESIGN 6/C13")
-claim("C14", "a==b iff same length and both inclusions with equal values (oracle independent of the implementation's one-directional shortcut), symmetric, reflexive, != is the negation, neither operand modified; all capacity pairs up to 3x3, all slot orders; Map and Set.",
-      BOUND + TB, KH, "DESIGN 6/C14")
+claim("C14", "a==b iff same length and both inclusions with equal values (oracle independent of the implementation's one-directional shortcut), symmetric, reflexive, != is the negation, neither operand modified; all capacity pairs up to 3x3, all slot orders; Map and Set. "
+      "Verus proves Map::eq for ALL capacities N and M: true exactly when the lengths agree and every binding of the left map is bound to an equal value in the right map (with unique keys, C05, that is extensional equality).",
+      BOUND + VASSUME + TB, KH + "; Map::eq discharged by Verus", "DESIGN 6/C14")
 claim("C15", "Token ledger: after clone every stored key and value has been cloned exactly once, the clone holds only fresh elements, same len, well-formed; destroying either copy leaves the other intact; final sweep; Copy shapes: clone view equals original, compares equal, later changes do not propagate. Set likewise.",
       BOUND + TB, KH + " + ownership ledger", "DESIGN 6/C15")
 claim("C16", "from_iter/collect/From<[_;N]>/Extend (by value and by reference) for Map and Set equal one-by-one insertion: probe key maps to (first key object, last value), len = number of distinct keys, source consumed exactly once front to back (recording iterator: L+1 calls), more distinct keys than N never returns.",
@@ -81,7 +89,7 @@ claim("C16", "from_iter/collect/From<[_;N]>/Extend (by value and by reference) f
 claim("C17", "Shape S_law: every == returns a fresh nondeterministic bool, pre-state only wf_weak (duplicates allowed): for every Map/Set operation, eq, from_iter, get_disjoint_mut and the set adaptors all memory-safety checks pass, ledger sweep finds each element destroyed exactly once, len<=capacity and iteration count == len, "
       "mutable references handed out together are pairwise distinct and inside the map. Wrong answers and the container's own panics are tolerated.", BOUND + TB, KH + " with nondeterministic comparison outcomes", "DESIGN 6/C17")
 claim("C18", "insert_unchecked under (len<N or key present): Verus proves for all N that insert_i meets the full insert contract (result, slot permutation, stored-key identity, wf) and that its debug_assert holds exactly under that precondition; Kani proves insert_unchecked against the same model contract as insert and the ledger; "
-      "get_disjoint_unchecked_mut under pairwise different keys satisfies the C13 contract.", BOUND + TB, "Verus contract on insert_i (all N); " + KH, "DESIGN 6/C18")
+      "Verus also proves insert_unchecked itself against exactly the interface contract of insert (insert_rel); get_disjoint_unchecked_mut under pairwise different keys satisfies the C13 contract (Kani).", BOUND + VASSUME + TB, "Verus contract on insert_i (all N); " + KH, "DESIGN 6/C18")
 
 claim("C19", "Shape S_fmt (one marker byte per element, comparing sink over a fixed buffer): Display of Map/Set equals '{' + entries joined by ', ' + '}' built by hand; Debug of Map/Set equals core::fmt's debug_map/debug_set over an independently built array of the entries; "
       "Debug of Iter, IterMut, Keys, Values, ValuesMut, IntoIter, IntoKeys, IntoValues, Drain after a given number of steps equals debug_list of the not-yet-yielded entries; Debug of Union/Intersection/Difference equals debug_list of what a clone still yields; container unchanged.",
